@@ -110,6 +110,10 @@ func (p *Parser) ParseSignedDataForRecover(compactJWS string) (*model.RecoverSig
 		return nil, fmt.Errorf("validate signed data for recovery: %s", err.Error())
 	}
 
+	if err := validateAlgorithmForKey(signedData.ProtectedHeaders, schema.RecoveryKey); err != nil {
+		return nil, fmt.Errorf("validate signed data for recovery: %s", err.Error())
+	}
+
 	return schema, nil
 }
 
@@ -145,6 +149,31 @@ func (p *Parser) parseSignedData(compactJWS string) (*internal.JSONWebSignature,
 	}
 
 	return sig, nil
+}
+
+// signature algorithms and the curve of the keys that produce them.
+//
+//nolint:gochecknoglobals
+var curveOfAlgorithm = map[string]string{
+	"ES256":  "P-256",
+	"ES384":  "P-384",
+	"ES512":  "P-521",
+	"ES256K": "secp256k1",
+	"EdDSA":  "Ed25519",
+}
+
+// validateAlgorithmForKey checks that the signature algorithm named in the protected header is the one that
+// goes with the signing key. The signature is verified according to the key (its type and curve), not according to
+// the header: without this check a signature of an algorithm that the protocol does not enable would pass under
+// the name of an enabled one.
+func validateAlgorithmForKey(headers jws.Headers, key *jws.JWK) error {
+	alg, _ := headers.Algorithm()
+
+	if curve, ok := curveOfAlgorithm[alg]; ok && key != nil && key.Crv != curve {
+		return fmt.Errorf("algorithm '%s' does not go with a key of curve '%s'", alg, key.Crv)
+	}
+
+	return nil
 }
 
 func (p *Parser) validateProtectedHeaders(headers jws.Headers, allowedAlgorithms []string) error {
